@@ -101,6 +101,24 @@ CHECKS = {
             'Trusted: beancount.core Inventory/convert/prices as the meaning of inventory sums and conversions; rates are '
             'finite decimals by construction so equality is exact.',
             'DESIGN.md section 4, C12'),
+    'C13': ('Hypothesis ledgers x clause subsets x dates on/around entry dates; invariants on observable rows (window, per-account Inventory totals vs direct sums, balanced transactions), filter commutation, cross-form agreement, with unrelated statements run first on the same connection',
+            'For generated ledgers and every subset of OPEN / CLOSE (dated or not) / CLEAR with dates before, inside, after '
+            'the span and on entry dates: original postings returned are exactly those in [d, e), unchanged and in order; '
+            'Assets/Liabilities totals equal the direct sums up to e with lots preserved; Income/Expenses totals equal the '
+            'in-period activity, or nothing with CLEAR; every returned transaction balances; a FROM filter commutes with the '
+            'clauses; BALANCES / JOURNAL / PRINT agree with the SELECT; CLOSE before OPEN is rejected in all statement forms.',
+            'Trusted: Beancount summarize (delegated to) is judged only through the stated invariants; original transactions '
+            'are recognised by narration.',
+            'DESIGN.md section 4, C13'),
+    'C14': ('Hypothesis ledgers + statements; differential against the explicit SELECT expansion and against a direct traversal (Python twin predicates); PRINT output parsed back directive by directive and whole-ledger round trip through the loader',
+            'BALANCES (summary none/units/cost, FROM and WHERE predicates, CLOSE/CLEAR qualifiers) must equal the explicit '
+            'GROUP BY / ORDER BY account_sortkey SELECT and per-account sums computed directly, ordered by account type then '
+            'name; JOURNAL (14 account patterns incl. regex operators and a double quote) must equal the explicit register '
+            'SELECT and a direct traversal with prefix-sum balance; PRINT must emit exactly the directives satisfying the '
+            'entry-level predicate, in order, and the whole-ledger output must load back to equal directives. A statement of '
+            'the same family runs first on the same connection.',
+            'Trusted: beancount printer/parser/loader for the round trip; predicates have hand-written Python twins.',
+            'DESIGN.md section 4, C14'),
     'C15': ('enumerated pivot-position x reference-form matrix + Hypothesis table/query generation; expected pivot computed from the un-pivoted engine result (itself checked against the reference model); un-pivot round trip; enumerated invalid references',
             'The pivoted result is compared (names, datatypes, rows, NULL fill, ascending block order incl. multi-digit '
             'integers) with a reshaping of the un-pivoted result of the same query, un-pivoting must give every original '
